@@ -11,6 +11,12 @@ def instances(tier):
             ks = ks + [5]
             if tier == 'thorough':
                 ks = ks + [3, 4]
+        if name == 'V5Beta':
+            ks = ks + [255]      # limit 254
+        if name == 'V5R1':
+            ks = ks + [256]      # limit 255
+        if name == 'HighLoadV2R2':
+            ks = ks + [255]      # limit 254
         for k in ks:
             out.append((W, 'VH_C14_send', [ver, k], {'weight': 10 + 100 * k if k < 5 else 1}))
     return out
@@ -19,8 +25,8 @@ def instances(tier):
 CHECK = dict(
     id='C14', pkgs=['wallet'], init_pkgs=['std:io', 'std:encoding/base64', 'boc', 'tlb', 'wallet'], instances=instances,
     opts={'budget_s': 2400, 'hash_injective': True},
-    level_text='For V3R1, V3R2, V4R1, V4R2, V5Beta, V5R1 and HighLoadV2R2 the real pipeline (wallet.New, RawSend, createSignedMsgBodyCell, ton.CreateExternalMessage, tlb.Marshal, SerializeBoc) is executed symbolically with a symbolic key pair, seqno and expiry over all uint32, symbolic sub-wallet / network id and k outgoing messages with symbolic bodies and modes; the BOC handed to the blockchain interface is parsed back: destination is the wallet itself, the signature verifies under the wallet key and under no other key, ExtractRawMessages returns exactly the requested messages and modes in order, Decode* return the same ids/seqno/expiry; limit+1 messages are refused before anything is sent (V3/V4).',
+    level_text='For V3R1, V3R2, V4R1, V4R2, V5Beta, V5R1 and HighLoadV2R2 the real pipeline (wallet.New, RawSend, createSignedMsgBodyCell, ton.CreateExternalMessage, tlb.Marshal, SerializeBoc) is executed symbolically with a symbolic key pair, seqno and expiry over all uint32, symbolic sub-wallet / network id and k outgoing messages with symbolic bodies and modes; the BOC handed to the blockchain interface is parsed back: destination is the wallet itself, the signature verifies under the wallet key and under no other key, ExtractRawMessages returns exactly the requested messages and modes in order, Decode* return the same ids/seqno/expiry; limit+1 messages (5 / 255 / 256) are refused before anything is sent.',
     level_note='Ed25519 is an ideal signature and SHA-256 an ideal hash (uninterpreted, injective): the check decides which bytes are signed and verified, nothing about the primitives. k <= 1 (quick) / 2..4 (thorough); the 254/255-message limits of V5 and highload are outside the bound.',
-    bounds={'quick': {'messages': '0..1 and limit+1 for V3/V4', 'message body': '8 symbolic bits'}, 'thorough': {'messages': '0..4 and limit+1'}},
+    bounds={'quick': {'messages': '0..1 and limit+1 for every version', 'message body': '8 symbolic bits'}, 'thorough': {'messages': '0..4 and limit+1'}},
     outside_claim=['real Ed25519 / SHA-256', 'comments and Sendable helpers', 'message counts near 254/255', 'V1/V2 wallets'],
 )
